@@ -15,14 +15,23 @@ reg(Prop('C01', [
            exhaustive='typed constants of width 1/2/4/8 x 5 boundary payloads squared x 17 binary + 3 unary ops; generic 64-bit boundary operands x ops x address sizes'),
     Stream('c01.deep', 1, 1000, 'oracle', shards=8, timeout=900,
            exhaustive='fixed family of large inputs (1k/20k/120k): zero aranges tuples, nested DIE chains, long CFI programs'),
+    # src/read/macros.rs — Model/MacroRd.v (family prefix c0101 = harness/src/c0101.rs, generators ocaml/s_c01m.ml);
+    # the spec-kind stream comes first so that a defect is reported with a concrete failing input before the cap of 10 reports is used up
+    Stream('c0101.rt', 10000, 200000, 'spec', timeout=600,
+           exhaustive='every DW_MACRO kind with maximal line/index/offset values in one unit (both orders of kinds), every DW_MACINFO kind incl. vendor_ext'),
+    Stream('c0101.info', 15000, 400000, 'model', timeout=600,
+           exhaustive='.debug_macinfo: every section of <= 2 bytes; every string of <= 4 bytes over a 15-symbol alphabet; every type byte with operands present; every operand-carrying type x 7 LEB shapes x every truncation point; offsets 0..len+1, 2^32, 2^63, 2^64-1'),
+    Stream('c0101.macro', 15000, 400000, 'model', timeout=600,
+           exhaustive='.debug_macro: every section of <= 3 bytes over a 15-symbol alphabet; 12 flag bytes x every body of <= 3 symbols; all 256 flag bytes x both byte orders; every type byte x 4 header shapes; every operand-carrying type x 32/64-bit x both byte orders x 7 LEB shapes x every truncation point'),
 ], level='proof', design_ref='§5 C01',
     clauses=['uleb_no_panic', 'sleb_no_panic', 'uleb16_no_panic', 'reader_ops_no_panic',
-             'c01_c02_no_panic', 'c01_c03_no_panic', 'c01_c03_line_parse_no_panic', 'c01_c04_no_panic_parse_insn', 'c01_c04_no_panic_rows', 'c01_c04_no_panic_parse_header', 'c01_c05_entries_total', 'c01_c05_fde_parse_total', 'c01_c05_fde_for_address_total', 'c01_c05_hdr_parse_total', 'c01_c05_table_iter_total', 'c01_c05_table_iter_stops_after_error', 'c01_c05_table_nth_total', 'c01_c05_lookup_total', 'c01_c05_hdr_fde_for_address_total', 'c01_c06_no_panic', 'c01_c06_parse_insn_total', 'c01_c07_decode_no_panic', 'c01_c07_operations_terminate', 'c01_c07_eval_no_panic', 'c01_c08_no_panic_raw_ranges', 'c01_c08_no_panic_raw_locations', 'c01_c08_no_panic_tables', 'c01_c08_no_panic_ranges', 'c01_c08_no_panic_locations', 'c01_c08_no_panic_die_ranges_all', 'c01_c08_iter_terminates', 'c01_c08_raw_iter_stops_after_error', 'c01_c17_index_find_terminates', 'c01_c17_index_parse_no_panic', 'c01_c17_index_find_no_panic', 'c01_c17_index_sections_no_panic', 'c01_c17_names_bucket_terminates', 'c01_c17_names_hash_terminates', 'c01_c17_names_headers_no_panic', 'c01_c17_names_index_new_no_panic', 'c01_c17_names_entries_no_panic', 'c01_c17_aranges_no_panic', 'c01_c17_pubstuff_no_panic', 'c01_c18_reader_no_panic', 'c01_c19_worklist_fuel'],
+             'c01_c02_no_panic', 'c01_c03_no_panic', 'c01_c03_line_parse_no_panic', 'c01_c04_no_panic_parse_insn', 'c01_c04_no_panic_rows', 'c01_c04_no_panic_parse_header', 'c01_c05_entries_total', 'c01_c05_fde_parse_total', 'c01_c05_fde_for_address_total', 'c01_c05_hdr_parse_total', 'c01_c05_table_iter_total', 'c01_c05_table_iter_stops_after_error', 'c01_c05_table_nth_total', 'c01_c05_lookup_total', 'c01_c05_hdr_fde_for_address_total', 'c01_c06_no_panic', 'c01_c06_parse_insn_total', 'c01_c07_decode_no_panic', 'c01_c07_operations_terminate', 'c01_c07_eval_no_panic', 'c01_c08_no_panic_raw_ranges', 'c01_c08_no_panic_raw_locations', 'c01_c08_no_panic_tables', 'c01_c08_no_panic_ranges', 'c01_c08_no_panic_locations', 'c01_c08_no_panic_die_ranges_all', 'c01_c08_iter_terminates', 'c01_c08_raw_iter_stops_after_error', 'c01_c17_index_find_terminates', 'c01_c17_index_parse_no_panic', 'c01_c17_index_find_no_panic', 'c01_c17_index_sections_no_panic', 'c01_c17_names_bucket_terminates', 'c01_c17_names_hash_terminates', 'c01_c17_names_headers_no_panic', 'c01_c17_names_index_new_no_panic', 'c01_c17_names_entries_no_panic', 'c01_c17_aranges_no_panic', 'c01_c17_pubstuff_no_panic', 'c01_c18_reader_no_panic', 'c01_c19_worklist_fuel',
+             'c01_c01m_macro_no_panic', 'c01_c01m_macro_iter_terminates', 'c01_c01m_macro_section_terminates', 'c01_c01m_macro_stops_after_error', 'c01_c01m_macro_error_is_last', 'c01_c01m_macro_progress', 'c01_c01m_macro_roundtrip', 'c01_c01m_macro_roundtrip_unit', 'c01_c01m_macro_operands_table_unsupported'],
     explored_only=[
-        'every unmodelled entry point (macros, names accessors, package index, whole-Dwarf walk, read->write converters): impl-side exploration with the oracle "returns normally within 4*len+64 steps, yields nothing after an error where documented"',
+        'every unmodelled entry point (names accessors, package index, whole-Dwarf walk, read->write converters): impl-side exploration with the oracle "returns normally within 4*len+64 steps, yields nothing after an error where documented"',
         'real stack depth, allocator behaviour, reads outside the buffer by unsafe code (see C10 for the bounds invariant)',
     ],
     technique='Coq no-panic/termination theorems for the modelled parsers (explicit Panic outcome for every checked operation, both build modes) + exploration of all public entry points on mutated/truncated/fault-injected compiler-built sections',
-    level_text='PARTIAL proof: for the modelled decoders the Coq model has an explicit Panic outcome for every overflow-checked operation, index and unwrap, and the theorems state it is never returned for any byte string in either build mode, with structural termination. Everything else in "every public entry point" is decided by exploration: the harness walks the whole public reading/lookup/unwind/evaluation/conversion API, ignoring errors, under a linear step cap, on the compiler-built corpus under seeded mutation, truncation at (sampled/every) byte and injected reader failures, in debug and release; panics, aborts, stack overflows, hangs and items yielded after an error are reported with the case line as replay.',
+    level_text='PARTIAL proof: for the modelled decoders the Coq model has an explicit Panic outcome for every overflow-checked operation, index and unwrap, and the theorems state it is never returned for any byte string in either build mode, with structural termination. src/read/macros.rs is modelled too (Model/MacroRd.v: get_macinfo, get_macros with the v5 unit header, MacroIter::next for DW_MACINFO_* and DW_MACRO_*): no Panic and a |section|+1 bound on calls of next() with errors ignored, nothing but Ok(None) after an error, progress of every call and the encoder round trip are theorems (Properties/C01Macro.v), tied by the c0101.* streams. Everything else in "every public entry point" is decided by exploration: the harness walks the whole public reading/lookup/unwind/evaluation/conversion API, ignoring errors, under a linear step cap, on the compiler-built corpus under seeded mutation, truncation at (sampled/every) byte and injected reader failures, in debug and release; panics, aborts, stack overflows, hangs and items yielded after an error are reported with the case line as replay.',
     level_note='Trusted: Coq kernel; hand-written models tied by differential execution; the harness walker (harness/src/c01.rs) decides what "every entry point" covers; corpus built by gcc 12/clang 14 in this sandbox and committed. Stack depth is observed on an 8 MiB main thread only.',
 ))
